@@ -27,11 +27,14 @@ class Ctx:
         self._facts_rel = None
         self._wit = {}
         self.extra = {}
+        self.config = "debug"
         self.t0 = time.time()
 
     # ---- facts -----------------------------------------------------------------------------
     @property
     def facts(self):
+        if self.config == "release":
+            return self.facts_release
         if self._facts is None:
             d, info = extract.extract_repo()
             self._facts = Facts(d)
@@ -81,6 +84,9 @@ class Ctx:
         self.analysed["functions"].add(body["path"])
 
 
+SINGLE_CONFIG = {"C20", "C15", "C16", "C17", "C08", "C09", "C01", "C03", "C11"}
+
+
 def load_known():
     p = os.path.join(VERIF, "known_findings.json")
     if not os.path.exists(p):
@@ -93,6 +99,16 @@ def run_check(prop, module, tier, seed, level, technique_note):
     crashed = None
     try:
         module.check(ctx)
+        # thorough: decide every rule on the second build configuration as well (release: no debug assertions, no
+        # overflow checks).  C20 compares the two configurations itself; the witness-based checks use one configuration.
+        if tier == "thorough" and prop not in SINGLE_CONFIG:
+            n0 = len(ctx.obs)
+            ctx.config = "release"
+            module.check(ctx)
+            ctx.config = "debug"
+            for o in ctx.obs[n0:]:
+                o["instance"] = o["instance"] + " [release build]"
+            ctx.extra["configurations"] = ["debug (debug-assertions, overflow-checks)", "release (both off)"]
     except AnchorLost as e:
         ctx.ob("anchor", "lookup", False, "anchor lost: %s" % e, what="anchor-lost")
     except extract.ExtractError as e:
